@@ -46,6 +46,14 @@ def _case(draw, big=False):
     # back-end run on each cell alone; thermal networks are preferred (their derived quantities depend on the cell)
     thermal = bool(case["cooling"] or case["heating"])
     case["cuda"] = draw(CU.batch()) if draw(st.integers(0, 2 if thermal else 9)) == 0 else None
+    # a fraction of the networks with temperature windows is compiled (dense, odeint) and evaluated twice in one process at
+    # two temperatures: the derivative is a function of the current state only (a second Solve, another cell)
+    # now and then a hub: one species whose equation collects more than a thousand terms (full-size networks: e-, H, H2), built
+    # by entering reactions of the generated network again and again (piecewise fits, merged databases) in a generated pattern
+    if len(case["reactions"]) >= 2 and draw(st.integers(0, 24)) == 0:
+        case["hub"] = {"n": draw(st.integers(1001, 1400)), "pattern": draw(st.lists(st.integers(0, len(case["reactions"]) - 1), min_size=2, max_size=7))}
+    windowed = any(rc["tmin"] > 0 or rc["tmax"] > 0 for rc in case["reactions"])
+    case["twice"] = windowed and draw(st.integers(0, 5)) == 0
     return case
 
 
@@ -229,11 +237,53 @@ def compare_rhs(case, proj, failures, tag):
     return slots, got
 
 
+def twice_check(net, d, failures):
+    """Compiled Fex of the dense and Odeint back-ends: the second evaluation in a process (other temperature, other state)
+    equals the evaluation of the same state in a fresh process."""
+    from ..cxx import build
+    from ..ratecase import data_fields
+
+    full = N.render(net, d / "tw", backends=[("cvode", "dense", "cpu"), ("odeint", "rosenbrock4", "cpu")], templates="all")
+    for method, proj in full.items():
+        try:
+            exe = build.build_ode_driver(proj, sanitize=False)
+        except build.BuildError:
+            return  # closure of the sources is C10's subject
+        fields = data_fields(proj)
+        vals = lambda T: " ".join(float(T if f == "Tgas" else 0.5 if f == "omega" else (1.0 if dv is None else dv)).hex() for f, dv in fields.items())
+        y1 = " ".join(float(10.0 ** (-(i % 7)) * (1 + 0.25 * i)).hex() for i in range(proj.neq))
+        y2 = " ".join(float(10.0 ** (-((i + 3) % 5)) * (1 + 0.125 * i)).hex() for i in range(proj.neq))
+        for T1, T2 in ((57.0, 5.0), (57.0, 9.0e4)):
+            second = f"p {vals(T2)}\ny {y2}\nrun\n"
+            rc, out, err = build.run_driver(exe, f"p {vals(T1)}\ny {y1}\nrun\n" + second, proj.path)
+            rc2, out2, err2 = build.run_driver(exe, second, proj.path)
+            if rc != 0 or rc2 != 0:
+                raise RuntimeError(f"ode driver failed: {err[-300:]} {err2[-300:]}")
+            a, b = build.parse_ode_output(out), build.parse_ode_output(out2)
+            fa, fb = a[1]["F"], b[0]["F"]
+            bad = [i for i in range(proj.neq) if not (fa[i] == fb[i] or (fa[i] != fa[i] and fb[i] != fb[i]))]
+            if bad:
+                i = bad[0]
+                failures.append((f"rhs/depends-on-earlier-call/{method}", f"{method}: ydot[{i}] = {fa[i]!r} when evaluated at T={T2:g} after an evaluation at T={T1:g} in the same process, {fb[i]!r} in a fresh process"))
+                return
+
+
+def expand_hub(case):
+    hub = case.get("hub")
+    if not hub:
+        return case
+    rs = case["reactions"]
+    more = [dict(rs[hub["pattern"][i % len(hub["pattern"])] % len(rs)], idx=-1) for i in range(hub["n"])]
+    return dict(case, reactions=[dict(r, idx=-1) for r in rs] + more, route="api")
+
+
 def check_case(case, tier):
     N.reset_naunet_state()
     failures = []
     extra = {}
-    labels = N.network_features(case) + [f"route-{case.get('route', 'api')}"]
+    compact = case
+    case = expand_hub(case)
+    labels = N.network_features(compact) + [f"route-{case.get('route', 'api')}"] + (["hub-equation>1000-terms"] if compact.get("hub") else [])
     with N.Scratch() as d, N.ThermalPatch(case):
         try:
             net = build(case)
@@ -259,8 +309,11 @@ def check_case(case, tier):
             # C01 is about the right-hand side: Jacobian discrepancies of the batch belong to C02/C03
             failures += [(k, m) for k, m in f2 if "/jac/" not in k]
             extra = dict(info)
+        if case.get("twice") and projs and not failures:
+            labels.append("compiled-evaluated-twice")
+            twice_check(net, d, failures)
     nontrivial = any(
         l in labels
         for l in ("repeated-reactant", "three-body", "catalyst", "pseudo-reactant", "duplicate-reaction", "thermal")
     )
-    return CaseResult(failures, nontrivial, labels, sample=N.abridge(case), extra=extra)
+    return CaseResult(failures, nontrivial, labels, sample=N.abridge(compact), extra=extra)
